@@ -244,3 +244,21 @@ Example C04_S4_hypotheses_satisfiable :
   run_impl None eps_default 40 p = (fst (run_spec eps_default 40 p), Done) /\
   length (fst (run_spec eps_default 40 p)) = 2%nat.
 Proof. vm_compute. repeat split. Qed.
+
+(* ================================================================== round 3: end-to-end composition
+   theories/Pipeline.v assembles lexer -> parser -> named tree -> static rules -> evaluator from SOURCE
+   BYTES (tied to the code by lib/props/pipeline.py on source text).  Statements as in
+   Properties/PIPELINE.v; restated by type so that this property's audit covers them. *)
+Require NS.Properties.PIPELINE.
+
+(* the names-only resolution produces lexical ids (closes the gap left in round 1) *)
+Theorem C04_resolved_ids_are_lexical :
+  ltac:(let t := type of NS.Properties.PIPELINE.PIPELINE_resolved_ids_are_lexical in exact t).
+Proof. exact NS.Properties.PIPELINE.PIPELINE_resolved_ids_are_lexical. Qed.
+Print Assumptions C04_resolved_ids_are_lexical.
+
+(* for every source: documented semantics comparable => the runtime transcription on the resolved tree prints the same and ends alike *)
+Theorem C04_impl_equals_spec_end_to_end :
+  ltac:(let t := type of NS.Properties.PIPELINE.PIPELINE_impl_equals_spec_end_to_end in exact t).
+Proof. exact NS.Properties.PIPELINE.PIPELINE_impl_equals_spec_end_to_end. Qed.
+Print Assumptions C04_impl_equals_spec_end_to_end.
